@@ -308,8 +308,9 @@ static void do_enable(End &e, short ev, const char *where) {
   // the library disables a direction when it detects EOF/ERROR; with deferred callbacks the report may not have been delivered
   // yet, so the application can unknowingly re-enable the direction and thereby legitimately provoke one more report
   short lib_en = bufferevent_get_enabled(top(e));
-  if ((ev & EV_READ) && (e.enabled & EV_READ) && !(lib_en & EV_READ)) e.r_budget++;
-  if ((ev & EV_WRITE) && (e.enabled & EV_WRITE) && !(lib_en & EV_WRITE)) e.w_budget++;
+  short pend = BEV_UPCAST(top(e))->eventcb_pending; bool pend_term = (pend & (BEV_EVENT_EOF | BEV_EVENT_ERROR)) != 0;
+  if ((ev & EV_READ) && (((e.enabled & EV_READ) && !(lib_en & EV_READ)) || (pend_term && (pend & BEV_EVENT_READING)))) e.r_budget++;
+  if ((ev & EV_WRITE) && (((e.enabled & EV_WRITE) && !(lib_en & EV_WRITE)) || (pend_term && (pend & BEV_EVENT_WRITING)))) e.w_budget++;
   int r = bufferevent_enable(top(e), ev);
   TR("%*s%s: %c enable(%s%s) -> %d", W->cb_depth * 4, "", where, 'A' + e.id, ev & EV_READ ? "R" : "", ev & EV_WRITE ? "W" : "", r);
   CHECK(r == 0, K("enable-failed"), "bufferevent_enable = %d", r);
